@@ -14,13 +14,15 @@ MaxE3   == EnvInt("VERIF_MAXE3", 0)     \* |exponent| bound for three-factor sid
 Prefixed == EnvInt("VERIF_PREFIXED", 0)
 
 MCFund == {"L", "T", "M", "I"}
-BaseSeq == <<"ma", "mb", "mc", "sa", "sb", "ga", "gb", "gc", "aa", "fa", "ea", "pa", "pb", "ra", "va", "ia", "ib", "la">>
+BaseSeq == <<"ma", "mc", "sa", "gb", "gc", "aa", "fa", "ea", "ra", "pa", "mb", "sb", "ga", "pb", "va", "ia", "ib", "la", "gd">>
+\* the units that pairs are enumerated over (a prefix of BaseSeq; all declarations stay in force)
+EnumBase == {BaseSeq[i] : i \in 1..EnvInt("VERIF_NENUM", 19)}
 MCBase == {BaseSeq[i] : i \in 1..Len(BaseSeq)}
 D(l, t, m, i) == [L |-> l, T |-> t, M |-> m, I |-> i]
 MCbdim == [b \in MCBase |->
    CASE b \in {"ma", "mb", "mc"} -> D(1, 0, 0, 0)
      [] b \in {"sa", "sb"}       -> D(0, 1, 0, 0)
-     [] b \in {"ga", "gb", "gc"} -> D(0, 0, 1, 0)
+     [] b \in {"ga", "gb", "gc", "gd"} -> D(0, 0, 1, 0)
      [] b = "aa"                 -> D(1, -2, 0, 0)      \* acceleration-like (g-force)
      [] b = "fa"                 -> D(1, -2, 1, 0)      \* force-like base unit (pound-force)
      [] b = "ea"                 -> D(2, -2, 1, 0)      \* energy-like (calorie)
@@ -30,7 +32,8 @@ MCbdim == [b \in MCBase |->
      [] b \in {"ia", "ib"}       -> D(0, 0, 0, 1)       \* information-like alias pair
      [] b = "la"                 -> D(0, -2, 1, 0)]     \* energy per area (langley)
 Bag(S) == [b \in MCBase |-> IF \E x \in S : x[1] = b THEN (CHOOSE x \in S : x[1] = b)[2] ELSE 0]
-C(l, pv, p, S) == [l |-> l, pv |-> pv, p |-> p, r |-> Bag(S)]
+C(l, pv, p, S) == [l |-> l, lp |-> 0, pv |-> pv, p |-> p, r |-> Bag(S)]
+CL(l, lp, pv, p, S) == [l |-> l, lp |-> lp, pv |-> pv, p |-> p, r |-> Bag(S)]
 MCCands == <<
   C("mb", <<-2, 0, 0>>, 0, {<<"ma", 1>>}),                         \*  1  mb = 0.25 ma
   C("mc", <<2, 1, 0>>, 0, {<<"mb", 1>>}),                          \*  2  mc = 12 mb
@@ -49,11 +52,13 @@ MCCands == <<
   C("va", <<-3, 0, -3>>, 0, {<<"ma", 3>>}),                        \* 15  va = 0.001 ma^3
   C("ib", <<0, 0, 0>>, 0, {<<"ia", 1>>}),                          \* 16  ib = 1 ia
   C("la", <<6, 0, 4>>, 0, {<<"gb", 1>>, <<"sa", -2>>}),            \* 17  la = 40000 joule-likes / ma^2
-  C("gb", <<0, 0, 0>>, 3, {<<"ga", 1>>}) >>                        \* 18  gb = 1 kilo-ga      (redundant, prefixed)
+  C("gb", <<0, 0, 0>>, 3, {<<"ga", 1>>}),                          \* 18  gb = 1 kilo-ga      (redundant, prefixed)
+  CL("gd", 3, <<1, 0, 0>>, 0, {<<"gb", 1>>}) >>                    \* 19  1 kilo-gd = 2 gb     (prefixed LEFT side)
 MCRoots == {"ma", "sa", "ga", "ia"}
 
 Mask == EnvInt("VERIF_SUBSET", 0)
-Droppable == <<3, 6, 8, 9, 11, 14>>
+\* dropping 13 AND 14 leaves the area-like unit without any definition; dropping 8 AND 9 the force-like one
+Droppable == <<13, 6, 8, 9, 11, 14>>
 Bit(k) == (Mask \div (2 ^ (k - 1))) % 2
 Dropped == {Droppable[k] : k \in {j \in 1..6 : Bit(j) = 1}}
 AllDecl == [i \in 1..(Len(MCCands) - Cardinality(Dropped)) |->
@@ -63,24 +68,30 @@ Idx(b) == CHOOSE i \in 1..Len(BaseSeq) : BaseSeq[i] = b
 E1 == {e \in -MaxE1..MaxE1 : e # 0}
 E2 == {e \in -MaxE2..MaxE2 : e # 0}
 E3 == {e \in -MaxE3..MaxE3 : e # 0}
-Bags1 == {Bag({<<x, e>>}) : x \in MCBase, e \in E1}
-Bags2 == {Bag({<<x, e1>>, <<y, e2>>}) : x \in MCBase, y \in MCBase, e1 \in E2, e2 \in E2} \ Bags1
+Bags1 == {Bag({<<x, e>>}) : x \in EnumBase, e \in E1}
+Bags2 == {Bag({<<x, e1>>, <<y, e2>>}) : x \in EnumBase, y \in EnumBase, e1 \in E2, e2 \in E2} \ Bags1
 Bags2Ord == {f \in Bags2 : Cardinality(Support(f)) = 2}
-Triples == {s \in SUBSET MCBase : Cardinality(s) = 3 /\ \E x \in s : x \in {"ma", "mc", "sa", "gb", "fa"}}
+Triples == {s \in SUBSET EnumBase : Cardinality(s) = 3 /\ \E x \in s : x \in {"ma", "mc", "sa", "gb", "fa"}}
 Bags3 == IF MaxE3 = 0 THEN {} ELSE
    UNION {{[b \in MCBase |-> IF b \in s THEN g[b] ELSE 0] : g \in [s -> E3]} : s \in Triples}
-AllBags == Bags1 \cup Bags2Ord \cup Bags3
+\* the empty bag is One: dimensionless compounds convert to and from it
+AllBags == Bags1 \cup Bags2Ord \cup Bags3 \cup {ZeroBag}
 UDim == [f \in AllBags |-> DimOf(f)]
 \* equal-dimension classes, computed once (constant level)
 Classes == {{g \in AllBags : UDim[g] = UDim[f]} : f \in AllBags}
 FullSizes == Solve([r \in MCRoots |-> PV0], {AllDecl[i] : i \in 1..Len(AllDecl)})
 SrcP == IF Prefixed = 1 THEN {0, 3} ELSE {0}
-DstP == IF Prefixed = 1 THEN {0, -3} ELSE {0}
+DstP == IF Prefixed = 1 THEN {0, -3, 3} ELSE {0}
 
 MCInit == decl = AllDecl /\ hist = <<>> /\ ev = Ev("init", 0, U(0, ZeroBag), U(0, ZeroBag), "ok", PV0, 0)
+\* a base unit that no declaration of this configuration mentions cannot be related to anything: if it
+\* survives in the net bag u/v the conversion is IMPOSSIBLE and the spec prescribes ConversionNotFound
+DeclSet == {AllDecl[i] : i \in 1..Len(AllDecl)}
+Isolated(b) == \A i \in DeclSet : b \notin Mentioned(MCCands[i])
+Impossible(f, g) == \E b \in MCBase : f[b] # g[b] /\ Isolated(b)
 Case(f, g, p, q) ==
-  /\ f # g
-  /\ ev' = Ev("convert", 0, U(p, f), U(q, g), "ok-or-CNF",
+  /\ (f # g \/ (Prefixed = 1 /\ f # ZeroBag))      \* self-conversions only in their prefixed variants
+  /\ ev' = Ev("convert", 0, U(p, f), U(q, g), IF Impossible(f, g) THEN "CNF" ELSE "ok-or-CNF",
               IF Mask = 0 THEN Add(USize(U(p, f), FullSizes), Neg(USize(U(q, g), FullSizes))) ELSE PV0, 1)
   /\ UNCHANGED <<decl, hist>>
 MCNext == TLCGet("level") = 1 /\ \E cl \in Classes : \E f \in cl, g \in cl, p \in SrcP, q \in DstP : Case(f, g, p, q)
